@@ -13,11 +13,12 @@
 (*            decoder must return for them.                                *)
 (***************************************************************************)
 EXTENDS MxjMapGen, MxjXmlEncode, Json
-CONSTANTS DoEmit
+CONSTANTS DoEmit,
+          AP, KP        \* attribute prefix and reserved-key prefix (one character each) the encoder runs under
 VNilC == [t |-> "n", v |-> <<"n", "i", "l">>]
-DefDec == [lower |-> FALSE, snake |-> FALSE, asmap |-> FALSE, keep |-> FALSE, escdec |-> FALSE, tagseq |-> FALSE, apfx |-> "-", kpfx |-> "#", cast |-> FALSE]
-EO(go) == [apfx |-> "-", kpfx |-> "#", esc |-> TRUE, goempty |-> go]
-TK == <<"#", "t", "e", "x", "t">>
+DefDec == [lower |-> FALSE, snake |-> FALSE, asmap |-> FALSE, keep |-> FALSE, escdec |-> FALSE, tagseq |-> FALSE, apfx |-> AP, kpfx |-> KP, cast |-> FALSE]
+EO(go) == [apfx |-> AP, kpfx |-> KP, esc |-> TRUE, goempty |-> go]
+TK == <<KP, "t", "e", "x", "t">>
 \* domain: the text key and attribute keys hold non-nil scalars where present
 RECURSIVE TextOK(_)
 TextOK(v) == IF IsMap(v) THEN /\ (TK \in DOMAIN v.kv => IsScalar(v.kv[TK]) /\ v.kv[TK].t # "n")
@@ -61,13 +62,13 @@ DecOf(ns) == IF Len(ns) = 1 /\ ~HasErr(ns) THEN Jsonable(Decode(ns[1], DefDec)) 
 Case(kind, go, ns) == [kind |-> kind, go |-> go, x |-> Join(RenderCompact(ns, EO(go))), one |-> Len(ns) = 1 /\ ~HasErr(ns), dec |-> DecOf(ns)]
 RT == <<"r">>
 Emit == (DoEmit /\ TextOK(m) /\ RootKeyOK) =>
-   PrintT(ToJson([f |-> "encv", m |-> Jsonable(m),
+   PrintT(ToJson([f |-> "encv", ap |-> AP, kp |-> KP, m |-> Jsonable(m),
       cs |-> SetToSeq(UNION {{Case("xml", go, EncodeRoot(m, <<>>, EO(go))), Case("xmlroot", go, EncodeRoot(m, RT, EO(go))),
                                Case("indentroot", go, EncodeRootIndent(m, <<>>, EO(go))), Case("any", go, AnyXml(m, RT, ElementTag, EO(go)))} : go \in BOOLEAN}),
       \* AnyXml on each top-level value (lists, scalars, nil)
       vs |-> SetToSeq({[key |-> Join(k), go |-> go, x |-> Join(RenderCompact(AnyXml(m.kv[k], RT, ElementTag, EO(go)), EO(go)))] : k \in DOMAIN m.kv, go \in BOOLEAN})]))
 Spec == GenSpec
-cKeys == {<<"a">>, <<"b">>, <<"-", "x">>, TK}
+cKeys == {<<"a">>, <<"b">>, <<AP, "x">>, TK}
 cScalars == {VS(<<>>), VS(<<"y">>), VS(<<"<", "&">>), VF(<<"1", ".", "5">>), VB(<<"t", "r", "u", "e">>), VNilC}
 cScalarsQ == {VS(<<>>), VS(<<"<", "&">>), VF(<<"1", ".", "5">>), VNilC}
 cConts == {EmptyMap, EmptyList}
